@@ -184,6 +184,26 @@ def assert_eq_unreached(text, ob, cb):
     return text[:ob] + new + text[cb + 1:], cb + len(new) - len(body)
 
 
+STR_CONST_RE = re.compile(r'(?<![A-Za-z0-9_:.])([A-Z][A-Z0-9]*(?:_[A-Z0-9]+)+)\b(?!\s*[(!:])')
+
+
+def str_consts(text, ob, cb):
+    """`ExpectedType(PTR_TYPE_TEXT, ..)` -> `ExpectedType(verif_const_PTR_TYPE_TEXT(), ..)`: Verus cannot ingest module-level consts
+    of type `&str`.  The unit's prelude declares `verif_const_X()` as an external_body function whose (compiled, unverified) body is the
+    const itself and whose contract says nothing, so the verified text computes the same value and the proof holds for any text."""
+    src = Src(text)
+    body = text[ob:cb + 1]
+    out, last = [], ob
+    for m in STR_CONST_RE.finditer(text, ob, cb):
+        if not src.mask[m.start()]:
+            continue
+        out.append(text[last:m.start()] + 'verif_const_%s()' % m.group(1))
+        last = m.end()
+    out.append(text[last:cb + 1])
+    new = ''.join(out)
+    return text[:ob] + new + text[cb + 1:], cb + len(new) - len(body)
+
+
 def pre_rewrite(text, unit):
     """source-level desugarings applied to the bodies of the functions that ask for them (spec key `pre_rewrites`), before annotation"""
     for key, spec in unit.get('fns', {}).items():
@@ -208,6 +228,8 @@ def pre_rewrite(text, unit):
             text, cb_ = assert_eq_unreached(text, ob_, cb_)
         if 'f64_gates' in spec['pre_rewrites']:
             text, cb_ = f64_gates(text, ob_, cb_)
+        if 'str_consts' in spec['pre_rewrites']:
+            text, cb_ = str_consts(text, ob_, cb_)
     return text
 
 
